@@ -299,7 +299,9 @@ Proof.
 Qed.
 
 (* ------------------------------------------------------------------ spectral form *)
+Set Warnings "-ambiguous-paths".
 From Coquelicot Require Import Coquelicot.
+Set Warnings "ambiguous-paths".
 
 Lemma is_derive_S {A} (l : list A) (f : A -> R -> R) (d : A -> R) x :
   (forall k, In k l -> is_derive (f k) x (d k)) ->
